@@ -99,6 +99,15 @@ def cases(rng, tier):
         for tag, its in variants.items():
             out.append(C.Case('c%d%s' % (i, tag), 'getitem', ['(' + ' '.join(its) + ')'], [G.sx(lay)],
                               dict(nontrivial=bool(pos) and len(vals) > 0, tags=dict(op='field', variant=tag), group='c%d' % i)))
+        if not pos:
+            # the projection alone: array["x"] / array[["x", "y"]] reach Content::getitem_field(key) / getitem_fields(keys)
+            # directly (not the only_fields overloads used inside a slice tuple); same group: same value demanded
+            if fitem.startswith('(fld '):
+                out.append(C.Case('c%dd' % i, 'field', [fitem[5:-1]], [G.sx(lay)],
+                                  dict(nontrivial=len(vals) > 0, tags=dict(op='field', variant='direct'), group='c%d' % i)))
+            else:
+                out.append(C.Case('c%dd' % i, 'fields', ['(' + fitem[6:-1] + ')'], [G.sx(lay)],
+                                  dict(nontrivial=len(vals) > 0, tags=dict(op='field', variant='direct'), group='c%d' % i)))
     return out
 
 
